@@ -15,6 +15,7 @@ struct LinData
   std::vector<std::vector<double>> A;  // m x n
   std::vector<double> b;
   std::vector<double> xint;  // a point with exactly representable A x = b (empty: none)
+  int log2_scale = 0;        // the whole residual A x - b multiplied by 2^log2_scale (the minimiser does not move)
 };
 
 std::vector<LinData> lin_menu(int n)
@@ -74,6 +75,17 @@ std::vector<LinData> lin_menu(int n)
     // 7: rank deficient with zero residual at start: b = A*xint
     v.push_back({"rankdef0", A, mulA(A, xi), xi});
   }
+  // the well-conditioned generic instance with the whole residual scaled by a power of two (same minimiser, same condition
+  // number): "linear least squares with a unique well-conditioned minimiser" does not depend on the unit of the residual
+  for (int e : {-27, -17, 27}) {
+    auto A = base(m);
+    auto b = bg;
+    const double sc = std::ldexp(1.0, e);
+    for (auto & r : A)
+      for (auto & x : r) x *= sc;
+    for (auto & x : b) x *= sc;
+    v.push_back({"wc*2^" + std::to_string(e), A, b, {}, e});
+  }
   return v;
 }
 
@@ -90,6 +102,7 @@ struct LinCommon : TPBase
   void init(const LinData & dd)
   {
     d = dd;
+    log2_res_scale = d.log2_scale;
     m = int(d.A.size());
     n = int(d.A[0].size());
     MatL A((size_t)m, VecL((size_t)n, 0));
